@@ -308,7 +308,7 @@ fn run_history(rec: &mut Rec, rng: &mut Rng, expr: &str, sets: &Sets) {
     }
 }
 
-const FIXED: [&str; 20] = [
+const FIXED: [&str; 26] = [
     // leap-day-only schedules late in the day (the longest searches there are: eight years of carries)
     "59 23 29 2 *",
     "59 23 29-31 2 *",
@@ -330,6 +330,14 @@ const FIXED: [&str; 20] = [
     "58-59 23 * * *",
     "0 0 20 * mon",
     "* 0 1 * *",
+    // a day of month that never occurs in the listed months, OR-ed with a restricted day of week: satisfiable through
+    // the weekday alone (and a day of month that occurs only in some of the listed months)
+    "0 0 30 2 mon",
+    "30 6 31 apr,jun 0",
+    "0 0 31 2,4,6,9,11 fri",
+    "15 12 30,31 feb 1-5",
+    "0 0 31 4,5 sat",
+    "0 0 29-31 2 sun,sat",
 ];
 
 pub fn run(ctx: &Ctx) -> PropResult {
